@@ -17,7 +17,7 @@ import (
 
 const prop = "C11"
 
-// Open known findings of this property (entries in known.d/C11.json).
+// Open known findings of this property (entries in known_findings.json).
 const (
 	kfV1Size   = "KF-C11-01" // object header v1: size field excludes message data, reader stops early
 	kfSB0Base  = "KF-C11-02" // superblock v0: reader hard-codes base address 0
